@@ -489,6 +489,28 @@ def main():
     props = [json.loads(l) for l in open(os.path.join(ROOT, "properties.jsonl"))]
     checks = []
     na = []
+    # what the third seeding round added to a check (DESIGN.md Appendix E)
+    ROUND3 = {
+        "C03": "In-place histories (one buffer overwritten between calls) for every rotation-vector routine; the quaternion tangent maps' derivatives for both normalize variants through QuatKernel.tla.",
+        "C07": "Laws on Revolute joints also on oblique bases and between two moving bodies (angle and energy rates by central differences); consecutive evaluations that differ in the velocity only.",
+        "C08": "Revolute cases also with translating / rotating frames as partners.",
+        "C09": "History used_then_reset: the assembled system is evaluated away from its initial configuration, then System.reset().",
+        "C11": "History: element-wise post-processing with explicit element numbers before the nodal-interpolation check.",
+        "C12": "Second pass with long-lived argument arrays overwritten in place.",
+        "C13": "The tables a Mesh1D precomputes (qp, wp, N, N_xi; Gauss and Lobatto) on non-uniform partitions, and live meshes of one degree asked alternately.",
+        "C14": "Every matrix method also with format coo / csr / csc / array.",
+        "C15": "Coo.tla models the nested container the caller still holds (kid, PokeKid, KidIndependent); every sequence of up to three nested / dense writes is replayed with the child kept alive; dense blocks arrive in eight memory layouts.",
+        "C16": "Re-initialisation also with every ball lifted off the plane.",
+        "C17": "Half of the random systems have products of inertia.",
+        "C18": "Scene kind with balls of unequal principal inertias sliding obliquely.",
+        "C19": "A top released from rest; every second system run to a final time that is no multiple of the step.",
+        "C20": "TimeGrid.tla LongRuns (1000 .. 20000 steps, final time just before / on / after a grid point); a save / load session.",
+        "C21": "Failures without injection (static problem without equilibrium with pseudo-inverse linear solvers; fast-spinning body under DualStormerVerlet) watched by independent observers of fsolve and the fixed-point helpers (site 'unmet' in SolverRun.tla).",
+        "C22": "The momentum helper is also started far away from the fixed point.",
+        "C24": "Systems shaken_support (joint partner with prescribed motion) and spinning_bar_coarse_output.",
+        "C25": "Frames with time-dependent orientation as joint partners (rate of the tracked angle against l_dot).",
+        "C27": "The prox parameter in other units (powers of two).",
+    }
     for p in props:
         pid = p["id"]
         if pid in CLAIMED:
@@ -501,7 +523,7 @@ def main():
                 "replay_cmd_template": f"./check {pid} --replay {{path}}",
                 "engine": "tlc+replay",
                 "level_claimed": {"category": c["level"], "text": c["text"], "design_ref": "DESIGN.md section " + c["ref"]},
-                "level_note": c["note"],
+                "level_note": c["note"] + (" " + ROUND3[pid] if pid in ROUND3 else ""),
                 "technique": c["technique"],
             })
         elif pid in NOT_APPLICABLE:
